@@ -6,7 +6,7 @@ export CARGO_NET_OFFLINE=true
 REPO="${PV_REPO:-/repo}"
 mkdir -p .cache out evidence
 python3 tools/extract.py --repo "$REPO" --family main
-( cd coq && coq_makefile -f _CoqProject -o Makefile >/dev/null && timeout 3000 make -j"$(nproc)" )
+( cd coq && coq_makefile -f _CoqProject -o Makefile >/dev/null && timeout 900 make -j"$(nproc)" )
 sh model_runner/build.sh
 cp "$REPO/Cargo.lock" harness/Cargo.lock
 ( cd harness && CARGO_TARGET_DIR=../.cache/target cargo build --offline --quiet 2>/dev/null || CARGO_TARGET_DIR=../.cache/target cargo build --offline )
@@ -14,12 +14,13 @@ cp "$REPO/Cargo.lock" harness/Cargo.lock
 for f in fam/*/; do
   [ -d "$f" ] || continue
   name=$(basename "$f")
-  if [ -f "tools/extract_$name.py" ]; then python3 tools/extract.py --repo "$REPO" --family "$name"; fi
-  if [ -f "$f/coq/_CoqProject" ]; then ( cd "$f/coq" && coq_makefile -f _CoqProject -o Makefile >/dev/null && timeout 3000 make -j"$(nproc)" ); fi
-  if [ -f "$f/runner/build.sh" ]; then sh "$f/runner/build.sh"; fi
+  # a family that does not build must not take the others down: its own checks rebuild and report
+  if [ -f "tools/extract_$name.py" ]; then python3 tools/extract.py --repo "$REPO" --family "$name" || echo "WARN: translator of family $name failed"; fi
+  if [ -f "$f/coq/_CoqProject" ]; then ( cd "$f/coq" && coq_makefile -f _CoqProject -o Makefile >/dev/null 2>&1 && timeout 900 make -j"$(nproc)" ) || echo "WARN: coq build of family $name failed"; fi
+  if [ -f "$f/runner/build.sh" ]; then sh "$f/runner/build.sh" || echo "WARN: runner build of family $name failed"; fi
   if [ -f "$f/harness/Cargo.toml" ]; then
     cp "$REPO/Cargo.lock" "$f/harness/Cargo.lock"
-    ( cd "$f/harness" && CARGO_TARGET_DIR="$(pwd)/../../../.cache/target_$name" cargo build --offline --quiet 2>/dev/null || CARGO_TARGET_DIR="$(pwd)/../../../.cache/target_$name" cargo build --offline )
+    ( cd "$f/harness" && CARGO_TARGET_DIR="$(pwd)/../../../.cache/target_$name" cargo build --offline --quiet 2>/dev/null || CARGO_TARGET_DIR="$(pwd)/../../../.cache/target_$name" cargo build --offline ) || echo "WARN: harness build of family $name failed"
   fi
 done
 echo "setup ok"
